@@ -41,10 +41,10 @@ func buildCases(e *lib.Env) []*tcase {
 		shapes = append(shapes, styled(s)...)
 	}
 	fullW := e.Pick(0, 2)
-	cover := e.Pick(2, 15)
+	cover := e.Pick(2, 12)
 	frac := map[int]float64{1: 0.05, 2: 0.01, 3: 0.0015, 4: 0.0003}
 	if !e.Quick() {
-		frac = map[int]float64{3: 0.045, 4: 0.005}
+		frac = map[int]float64{3: 0.035, 4: 0.004}
 	}
 	rs := e.Rand("matrix-sample")
 	seen := map[string]int{}
@@ -112,7 +112,7 @@ func buildCases(e *lib.Env) []*tcase {
 			reps = append(reps, pair{sh, m})
 		}
 	}
-	k := e.Pick(25, 200)
+	k := e.Pick(12, 120)
 	for _, src := range sources {
 		for ri := range routes {
 			rt := &routes[ri]
